@@ -167,16 +167,62 @@ def plan_C19(tier, seed):
     b = BOUNDS["C19"][tier]
     D = ("OS_DEFAULT_SEGMENT_LENGTH=16", "VLO_DEFAULT_LENGTH=4")
     jobs = []
-    for src, lib in (("hC19.c", "containers"),):
+    for src, lib in (("hC19.c", "containers"), ("hC19x.cpp", "cxxcontainers")):
         for e0 in range(b["hash_elements"]):
             jobs.append({"harness": src, "defs": D, "lib": lib, "params": {"mode": 0, "steps": b["hash_steps"], "elements": b["hash_elements"], "hmax": b["hmax"], "size": 0, "el0": e0}, "weight": 1000})
         for op0 in range(7):
             jobs.append({"harness": src, "defs": D, "lib": lib, "params": {"mode": 1, "steps": b["os_steps"], "op0": op0}, "weight": 800})
             jobs.append({"harness": src, "defs": D, "lib": lib, "params": {"mode": 2, "steps": b["vlo_steps"], "op0": op0}, "weight": 800})
     wit = [{"harness": "hC19.c", "defs": D, "lib": "containers", "params": {"mode": 2, "steps": 2, "witness": 1}}]
-    return {"jobs": jobs, "witness": wit, "bounds": b, "defs": D,
+    return {"jobs": jobs, "witness": wit, "bounds": b, "defs": D, "cxx": True,
             "rule": "one state = one history of `steps' container operations from a fresh container with symbolic operation kinds and sizes from {0,1,15,16,17,24} bytes (segment length 16 / initial VLO length 4 so that growth and segment changes occur); hash table: elements with symbolic hash values, initial size 0 so that every history crosses expansions; after every operation the full abstract contents are compared with the model",
-            "assumptions": ["realloc always moves the block (VM and native wrapper)", "units verified: hashtab.c, objstack.c + objstack.h macros, vlobject.c + vlobject.h macros, allocate.c"]}
+            "assumptions": ["realloc always moves the block (VM and native wrapper)", "units verified: hashtab.c, objstack.c + objstack.h macros, vlobject.c + vlobject.h macros, allocate.c; hashtab.cpp, objstack.cpp, vlobject.cpp and the inline members of classes hash_table, os, vlo (clang++-14 -fno-exceptions, operator new never fails)"]}
+
+
+def plan_C16(tier, seed):
+    b = BOUNDS["C16"][tier]
+    X = {"lib": "both", "extra_src": ("shim16.cpp",)}
+    jobs = []
+    for how in (0, 1):
+        for j in all_jobs("hC16.c", b["grammars"] if how == 0 else b["text_grammars"], b["all_len"], {"how": how}):
+            j.update(X); jobs.append(j)
+    for how in (2, 3):
+        for j in all_jobs("hC16.c", b["grammars"][:2], {"default": 1}, {"how": how}):
+            j.update(X); jobs.append(j)
+    for j in all_jobs("hC16.c", b["text_grammars"], {"default": 3}, {"how": 0, "default_alloc": 1}):
+        j.update(X); jobs.append(j)
+    for j in near_jobs("hC16.c", b["near_grammars"], 1, {"how": 0}):
+        j.update(X); jobs.append(j)
+    w = {"harness": "hC16.c", "params": {"grammar": GIDX["G3"], "len": 3, "first": -1, "how": 0, "witness": 1}}
+    w.update(X)
+    return {"jobs": jobs, "witness": [w], "bounds": b, "cxx": True,
+            "rule": "one state = (grammar defined by callbacks / by description / defective / description with syntax error, token sequence, one of 24 configurations, recovery_match 1..3, caller or default allocator); libyaep (yaep.c, hashtab.c, objstack.c, vlobject.c) and libyaep++ (yaep.cpp, hashtab.cpp, objstack.cpp, vlobject.cpp) are linked into one module and driven with identical symbolic inputs",
+            "assumptions": ["C++ units compiled with clang++-14 -fno-exceptions; operator new never fails", "the unmangled globals of yaep.cpp's copy of yaep.c are internalized so that both libraries fit in one module"]}
+
+
+def plan_C12(tier, seed):
+    b = BOUNDS["C12"][tier]
+    jobs = [{"harness": "hC12.c", "params": {"mode": 0}, "weight": 100}]
+    for n in b["nterms"]:
+        jobs.append({"harness": "hC12.c", "params": {"mode": 1, "nterm": n}, "weight": 100})
+    for g in b["flag_grammars"]:
+        jobs.append({"harness": "hC12.c", "params": {"mode": 2, "grammar": GIDX[g], "len": b["flag_len"]}, "weight": 200})
+    # the same scenario classes as the other checks, in fault-only mode (their assertions are not counted here)
+    jobs += near_jobs("hC01.c", b["near_grammars"], b["near_edits"])
+    jobs += all_jobs("hRec.c", b["rec_grammars"], b["rec_len"], {"only_errors": 0, "maxmatch": 3})
+    jobs += all_jobs("hC04.c", b["cost_grammars"], b["cost_len"], {"maxcost": 3})
+    jobs += all_jobs("hC13.c", b["cost_grammars"], b["cost_len"], {"mode": 0, "rec": 1})
+    for n in range(1, b["nbytes"] + 1):
+        jobs.append({"harness": "hC11.c", "params": {"mode": 1, "nbytes": n}, "weight": 30 ** n})
+    for cs in range(5):
+        jobs.append({"harness": "hC15.c", "params": {"mode": 1, "codeset": cs, "ntok": 2}, "weight": 10})
+    for n in range(0, 3):
+        jobs.append({"harness": "hC10.c", "params": {"family": 0, "nterm": n}, "weight": 6 ** n})
+    jobs.append({"harness": "hC10.c", "params": {"family": 2}, "weight": 50})
+    wit = [{"harness": "hC12.c", "params": {"mode": 0, "witness": 1}}]
+    return {"jobs": jobs, "witness": wit, "bounds": b,
+            "rule": "one state = one path of one of the harnesses: dedicated jobs (symbol names of 0..300 characters in five defect messages; 200 terminals with dense or sparse codes and a token code symbolic over all int; all setter arguments symbolic incl. recovery_match <= 0 and debug levels) plus the scenario classes of C01, C04, C06-C08, C10, C11, C13, C15 in fault-only mode; counted are the VM's built-in faults (out of bounds, use after free, double free, uninitialised use, signed overflow, division by zero, over-wide shift, NULL dereference, abort/exit, instruction budget) and the C12-labelled assertions",
+            "assumptions": ["instruction budget 400 M per path stands for 'returns in bounded time'", "uninitialised-memory tracking is byte-precise with conservative propagation through arithmetic; a report counts only if the native sanitizer run also faults"]}
 
 
 TREE_ORACLE = "translation oracle: exhaustive enumeration of all derivations over all splits with the documented translation rules (spec/oracle.h), hash-consed; DAG side: one alternative per ALT occurrence"
@@ -191,7 +237,9 @@ PROPS = {
     "C08": {"plan": simple_plan("C08", "hRec.c", "one state = (grammar, non-sentence, lookahead x one_parse, recovery_match); minimal simple-recovery cost computed by the viable-prefix oracle over all (back position, forward skip) pairs", ["viable-prefix oracle (spec/oracle.h)"]), "home_faults": False, "label_prefix": "C08:"},
     "C09": {"plan": simple_plan("C09", "hC09.c", "one state = (grammar, input from ALL(N) or NEAR(k), one_parse x cost x recovery); inside the path the input is parsed with lookahead 0,1,2,-3,7 and debug levels 0,1,-1,6,3 and all observables are compared; with -DYAEP_VERIF every goto-cache hit is re-computed and compared", ["debug output goes to a sink (fprintf model evaluates arguments only)"]), "home_faults": False},
     "C10": {"plan": plan_C10, "home_faults": False},
+    "C12": {"plan": plan_C12, "home_faults": True, "label_prefix": "C12:"},
     "C13": {"plan": plan_C13, "home_faults": True},
+    "C16": {"plan": plan_C16, "home_faults": False},
     "C19": {"plan": plan_C19, "home_faults": True},
     "C17": {"plan": plan_C17, "home_faults": True},
     "C14": {"plan": plan_C14, "home_faults": True},
